@@ -501,7 +501,7 @@ def _from_dense(a, fmt, dtype):
     m, n = a.shape
     it = a.items
     tr = [(i, j, it[i * n + j]) for i in range(m) for j in range(n) if not _iszero(it[i * n + j])]
-    return spmatrix.from_triples(tr, (m, n), fmt, snp._dt(dtype) if dtype else (a.dtype if a.dtype.kind == "f" else snp.float64))
+    return spmatrix.from_triples(tr, (m, n), fmt, snp._dt(dtype) if dtype else (a.dtype if a.dtype.kind in "fi" else snp.float64))
 
 
 def _construct(fmt, arg, shape=None, dtype=None, copy=False):
@@ -531,11 +531,12 @@ def _construct(fmt, arg, shape=None, dtype=None, copy=False):
             for j in ci:
                 if not 0 <= j < shape[1]:
                     raise ValueError("column index exceeds matrix dimensions")
-            if isinstance(data, ndarray) and data.dtype.kind == "f" and (dt is None or dt == data.dtype) and not copy and ALIAS.get(("coo", "coo_matrix(data)")) == "share":
+            if isinstance(data, ndarray) and data.dtype.kind in "fi" and (dt is None or dt == data.dtype) and not copy and ALIAS.get(("coo", "coo_matrix(data)")) == "share":
                 darr = data
             else:
                 items = data.items if isinstance(data, ndarray) else list(data)
-                darr = ndarray.of(items, dt or (data.dtype if isinstance(data, ndarray) and data.dtype.kind == "f" else snp.float64))
+                # scipy keeps the dtype of the data it is given (an integer array stays integer)
+                darr = ndarray.of(items, dt or (data.dtype if isinstance(data, ndarray) and data.dtype.kind in "fi" else snp.float64))
             if len(darr.items) != len(ri) or len(ri) != len(ci):
                 raise ValueError("row, column, and data array must all be the same length")
             coo = spmatrix("coo", shape, ndarray.of(ri, snp.int32), ndarray.of(ci, snp.int32), darr, darr.dtype)
